@@ -19,7 +19,7 @@ func c18NumCases(env *core.Env) int {
 	if env.Thorough() {
 		return 10000
 	}
-	return 500
+	return 2500
 }
 
 // recCache records the traffic of a wrapped cache (event log for the offline checks).
